@@ -26,10 +26,19 @@ impl FromSpecImpl<chrono::DateTime<chrono::FixedOffset>> for Value { open spec f
 impl From<chrono::DateTime<chrono::FixedOffset>> for Value { fn from(v: chrono::DateTime<chrono::FixedOffset>) -> Value { Value::Timestamp(v) } }
 impl FromSpecImpl<ExecutionError> for ResolveResult { open spec fn obeys_from_spec() -> bool { true } open spec fn from_spec(v: ExecutionError) -> ResolveResult { Err(v) } }
 impl FromSpecImpl<Value> for ResolveResult { open spec fn obeys_from_spec() -> bool { true } open spec fn from_spec(v: Value) -> ResolveResult { Ok(v) } }
+impl FromSpecImpl<Key> for Value { open spec fn obeys_from_spec() -> bool { true } open spec fn from_spec(v: Key) -> Value { key_value(v) } }
+//@verify objects.from_key_for_value
+impl<'a> FromSpecImpl<&'a Key> for Value { open spec fn obeys_from_spec() -> bool { true } open spec fn from_spec(v: &'a Key) -> Value { key_value(*v) } }
+//@verify objects.from_keyref_for_value
+impl FromSpecImpl<bool> for Key { open spec fn obeys_from_spec() -> bool { true } open spec fn from_spec(v: bool) -> Key { Key::Bool(v) } }
+//@verify objects.from_bool_for_key
+impl FromSpecImpl<i64> for Key { open spec fn obeys_from_spec() -> bool { true } open spec fn from_spec(v: i64) -> Key { Key::Int(v) } }
+//@verify objects.from_i64_for_key
+impl FromSpecImpl<u64> for Key { open spec fn obeys_from_spec() -> bool { true } open spec fn from_spec(v: u64) -> Key { Key::Uint(v) } }
+//@verify objects.from_u64_for_key
+impl FromSpecImpl<Arc<String>> for Key { open spec fn obeys_from_spec() -> bool { true } open spec fn from_spec(v: Arc<String>) -> Key { Key::String(v) } }
+//@verify objects.from_arcstring_for_key
+impl TryIntoSpecImpl<Key> for Value { open spec fn obeys_try_into_spec() -> bool { false } open spec fn try_into_spec(self) -> Result<Key, Value> { arbitrary() } }
+//@verify objects.try_into_key_for_value
 //@verify objects.from_value_for_result
 //@verify objects.from_error_for_result
-impl AddSpecImpl<Value> for Value { open spec fn obeys_add_spec() -> bool { false } open spec fn add_req(self, rhs: Value) -> bool { true } open spec fn add_spec(self, rhs: Value) -> ResolveResult { arbitrary() } }
-impl SubSpecImpl<Value> for Value { open spec fn obeys_sub_spec() -> bool { false } open spec fn sub_req(self, rhs: Value) -> bool { true } open spec fn sub_spec(self, rhs: Value) -> ResolveResult { arbitrary() } }
-impl MulSpecImpl<Value> for Value { open spec fn obeys_mul_spec() -> bool { false } open spec fn mul_req(self, rhs: Value) -> bool { true } open spec fn mul_spec(self, rhs: Value) -> ResolveResult { arbitrary() } }
-impl DivSpecImpl<Value> for Value { open spec fn obeys_div_spec() -> bool { false } open spec fn div_req(self, rhs: Value) -> bool { true } open spec fn div_spec(self, rhs: Value) -> ResolveResult { arbitrary() } }
-impl RemSpecImpl<Value> for Value { open spec fn obeys_rem_spec() -> bool { false } open spec fn rem_req(self, rhs: Value) -> bool { true } open spec fn rem_spec(self, rhs: Value) -> ResolveResult { arbitrary() } }
